@@ -17,6 +17,8 @@ import XsdataModel.Proofs.C09Ns
 import XsdataModel.Proofs.C09Xsi
 import XsdataModel.Proofs.C09Attrs
 import XsdataModel.Proofs.C09Chunks
+import XsdataModel.Proofs.C09NsRel
+import XsdataModel.Proofs.C09Infoset
 
 namespace Props.C09
 open Py Xs.Bind Proofs.C09
@@ -310,6 +312,59 @@ example : (xsiTypeOf Data.benv [(xsiType, "a:T".toList)] [(some "a".toList, "urn
 example : (xsiTypeOf Data.benv [(xsiType, "T".toList)] [(none, "urn:x".toList)]).toOption =
     some (some "{urn:x}T".toList) := by decide
 
+/-! ## 4b. prefix maps, whatever the classes are
+
+`prefix_invariant_partial` asks that *no* field is QName typed.  The parser reads the prefix map
+of an element for three questions about that element's own lexical values only — how a value and
+each of its white space separated tokens resolve as QNames (`QNameConverter.resolve`: QName typed
+fields, `xsi:type`), and how an attribute value reads under `parse_any_attribute` (the wildcard
+attribute heuristic) — so two maps that answer them alike (`strStable`) are interchangeable. -/
+
+/-- **prefix_map_invariant**: for every universe (QName typed fields, xsi:type, `Attributes`
+and wildcard fields included), two documents with the same names, attributes and character data
+whose prefix maps answer, element by element, the three questions about that element's values
+alike (`nsRel`) are parsed to the same result.  Covers: declarations moved between elements, unused
+declarations added or removed, prefixes that no value refers to renamed, a default namespace
+declared or dropped around elements without unprefixed QName values, another order of the map.
+The region of finding c09-any-attr-prefix is exactly the third conjunct of `strStable`:
+`parseAnyAttribute v n = parseAnyAttribute v n'`. -/
+theorem prefix_map_invariant (e : BEnv) (Γ : Ctx) (cfg : ParserConfig) (c : ClassId) (t t' : Tree)
+    (h : nsRel e t t' = true) : parseRoot e Γ cfg c t = parseRoot e Γ cfg c t' :=
+  parseRoot_nsRel e Γ cfg c t t' h
+
+/-- **prefix_map_lookup_only**: the parser uses a prefix map as a lookup function: any rebuilding of
+the maps that keeps every lookup (`dict` order — the native handler's merged dict and lxml's
+`nsmap` differ in it —, shadowed entries) gives the same result. -/
+theorem prefix_map_lookup_only (e : BEnv) (Γ : Ctx) (cfg : ParserConfig) (c : ClassId) (f : NsMap → NsMap)
+    (hf : ∀ n p, (f n).get p = n.get p) (t : Tree) :
+    parseRoot e Γ cfg c (mapNs f t) = parseRoot e Γ cfg c t :=
+  (parseRoot_nsRel e Γ cfg c t (mapNs f t) (nsRel_mapNs e f hf t)).symm
+
+/-- a value without a colon is never touched by the wildcard attribute heuristic -/
+theorem any_attr_heuristic_needs_colon (v : Str) (n : NsMap) (h : v.contains ':' = false) :
+    parseAnyAttribute v n = v :=
+  parseAnyAttribute_nocolon v n h
+
+/-- `<r xmlns:p="urn:p" xmlns:xsi=… xsi:type="p:T" a="7">p:x</r>` and the same document with the
+unused prefix `zz` declared, `xsi` bound once more and the map in another order: related by `nsRel`
+although it carries xsi:type and a value that looks like a QName -/
+def nsDocA : Tree :=
+  .node "r".toList [(xsiType, "p:T".toList), ("a".toList, "7".toList)]
+    [(some "p".toList, "urn:p".toList), (some "xsi".toList, xsiNs)] (some "p:x".toList) [] none
+def nsDocB : Tree :=
+  .node "r".toList [(xsiType, "p:T".toList), ("a".toList, "7".toList)]
+    [(some "zz".toList, "urn:unused".toList), (some "xsi".toList, xsiNs), (some "p".toList, "urn:p".toList)]
+    (some "p:x".toList) [] none
+example : nsRel Data.benv nsDocA nsDocB = true := by decide
+-- … while rebinding `p` is not (the QName value and the xsi:type would change their meaning)
+example : nsRel Data.benv nsDocA
+    (.node "r".toList [(xsiType, "p:T".toList), ("a".toList, "7".toList)]
+      [(some "p".toList, "urn:other".toList), (some "xsi".toList, xsiNs)] (some "p:x".toList) [] none) = false := by decide
+example : ∀ (n : NsMap) (p : Option Str), NsMap.get (n ++ n) p = NsMap.get n p := by
+  intro n p
+  rw [Xs.Backends.get_append]
+  cases NsMap.get n p <;> rfl
+
 /-! ## 5. the excluded region: name-like values of wildcard attributes -/
 
 mutual
@@ -397,5 +452,60 @@ open Xs.Backends in
 example : deferredReads (fun _ => none) chunkWitness = [some "TAIL".toList, none, none] := by decide
 open Xs.Backends in
 example : eagerReads (fun _ => none) chunkWitness = [none, none, none] := by decide
+
+/-! ## 7. from bytes to the result (`Backends/Infoset.lean`)
+
+CDATA sections, character references, encodings, quotes, empty-element tags, comments and
+processing instructions are resolved by the tokeniser.  `TokeniserContract` states what the rest
+of the system relies on — the events are the events of the document's infoset — and the
+correspondence checks it on generated spellings (every rewrite kind, both handlers).  Given the
+contract the theorems above are about bytes. -/
+
+open Xs.Backends in
+/-- **native_reads_infoset**: given the contract, `XmlParser(handler=XmlEventHandler).from_bytes`
+returns what the binding layer makes of the document's infoset with every element's in-scope
+namespaces: the handler's own bookkeeping of prefix maps (`merge_parent_namespaces`, dict order,
+copy-on-declaration) cannot be told from it. -/
+theorem native_reads_infoset (C : TokeniserContract) (e : BEnv) (Γ : Ctx) (cfg : ParserConfig) (c : ClassId)
+    (b : ByteStr) (t : XTree) (h : C.infoset b = some t) :
+    nativeResult C e Γ cfg c b = parseRoot e Γ cfg c (specTree [] t) := by
+  unfold nativeResult
+  rw [C.events_of_infoset b t h, assemble_pump]
+  exact parseRoot_nsRel e Γ cfg c _ _
+    (nsRel_native_spec e t [] [] (by intro p; simp [topMap, get_nil, inScope]))
+
+open Xs.Backends in
+/-- **infoset_invariant**: given the contract, two byte strings — any encodings, any spelling of
+character data, comments and processing instructions anywhere — whose infosets agree up to what
+`nsRel` allows for the prefix maps are parsed to the same result by the native handler. -/
+theorem infoset_invariant (C : TokeniserContract) (e : BEnv) (Γ : Ctx) (cfg : ParserConfig) (c : ClassId)
+    (b b' : ByteStr) (t t' : XTree) (h : C.infoset b = some t) (h' : C.infoset b' = some t')
+    (hrel : nsRel e (specTree [] t) (specTree [] t') = true) :
+    nativeResult C e Γ cfg c b = nativeResult C e Γ cfg c b' := by
+  rw [native_reads_infoset C e Γ cfg c b t h, native_reads_infoset C e Γ cfg c b' t' h']
+  exact parseRoot_nsRel e Γ cfg c _ _ hrel
+
+open Xs.Backends in
+/-- **same_infoset_same_result**: in particular two spellings of one infoset (CDATA / character
+references / encoding / comments / PIs / quotes / empty-element tags differ). -/
+theorem same_infoset_same_result (C : TokeniserContract) (e : BEnv) (Γ : Ctx) (cfg : ParserConfig) (c : ClassId)
+    (b b' : ByteStr) (t : XTree) (h : C.infoset b = some t) (h' : C.infoset b' = some t) :
+    nativeResult C e Γ cfg c b = nativeResult C e Γ cfg c b' := by
+  rw [native_reads_infoset C e Γ cfg c b t h, native_reads_infoset C e Γ cfg c b' t h']
+
+open Xs.Backends in
+/-- `<Plain xmlns:p="urn:p" a="7" b="v"><x>hello</x><y xmlns:q="urn:q">true</y></Plain>` -/
+def plainX : XTree :=
+  .node [("p".toList, "urn:p".toList)] "Plain".toList [("a".toList, "7".toList), ("b".toList, "v".toList)] .passed none
+    [.node [] "x".toList [] .passed (some "hello".toList) [] none,
+     .node [("q".toList, "urn:q".toList)] "y".toList [] .passed (some "true".toList) [] none] none
+
+open Xs.Backends in
+/-- a (toy) tokeniser that satisfies the contract: every byte string spells `plainX` -/
+def toyContract : TokeniserContract := ⟨fun _ => toks plainX, fun _ => some plainX, by intro b t h; cases h; rfl⟩
+
+open Xs.Backends in
+example : Data.primOf (nativeResult toyContract Data.benv Data.ctx {} "Plain".toList []) "y" = some (.bool true) := by
+  decide
 
 end Props.C09
